@@ -96,4 +96,117 @@ def check_functions(run, rid, prog, funcs, what):
                            message="%s uses %s, which does not exist in the installed library (%s raises "
                                    "AttributeError on this path)" % (f.short, ext, what), loc=f.loc(node),
                            sample={"function": f.short, "api": ext})
+    n += check_self_attributes(run, rid, prog, funcs, what)
+    return n
+
+
+# ----------------------------------------------------------------------
+# attributes of self: every `self.X` that a method reads must be defined somewhere the object
+# can have got it from - a method, property or class attribute in the MRO, or an assignment
+# `self.X = ...` / `setattr` in any method of the class, its bases or its subclasses.
+def _class_universe(prog, cls):
+    """classes whose definitions can contribute attributes to an instance that runs cls's methods:
+    the MRO of cls and the MRO of every subclass of cls.  Returns (classes, fully_resolved)"""
+    out = []
+    resolved = True
+    subs = [c for m_ in prog.modules.values() for c in m_.classes.values() if c is cls or cls in prog.mro(c)]
+    for c in subs:
+        for b in prog.mro(c):
+            if b is None:
+                resolved = False
+            elif b not in out:
+                out.append(b)
+        # an external base other than object hides what it defines
+        for be, bc in zip(c.base_exprs, c.bases):
+            if bc is None and norm(be) not in ("object",):
+                resolved = False
+    return out, resolved
+
+
+def defined_attributes(prog, cls):
+    classes, resolved = _class_universe(prog, cls)
+    names = set()
+    dynamic = False
+    for c in classes:
+        names.update(c.methods)
+        names.update(k.split(".")[0] for k in c.methods)
+        names.update(c.attrs)
+        # managed-property descriptors keep their value under the underscored name
+        for nme, val in c.attrs.items():
+            if isinstance(val, ast.Call):
+                names.add("_" + nme)
+                for a in val.args:
+                    if isinstance(a, ast.Constant) and isinstance(a.value, str):
+                        names.add("_" + a.value)
+        for st in c.node.body:
+            if isinstance(st, ast.AnnAssign) and isinstance(st.target, ast.Name):
+                names.add(st.target.id)
+            if isinstance(st, (ast.Assign,)):
+                for t_ in st.targets:
+                    for n in ast.walk(t_):
+                        if isinstance(n, ast.Name):
+                            names.add(n.id)
+        if "__getattr__" in c.methods or "__getattribute__" in c.methods:
+            dynamic = True
+        for f in c.methods.values():
+            selfname = f.node.args.args[0].arg if f.node.args.args else None
+            for n in ast.walk(f.node):
+                if isinstance(n, ast.Attribute) and isinstance(n.ctx, (ast.Store, ast.Del)) and \
+                        isinstance(n.value, ast.Name) and n.value.id == selfname:
+                    names.add(n.attr)
+                if isinstance(n, ast.Call) and isinstance(n.func, ast.Name) and n.func.id == "setattr" and n.args:
+                    if isinstance(n.args[0], ast.Name) and n.args[0].id == selfname:
+                        if len(n.args) > 1 and isinstance(n.args[1], ast.Constant):
+                            names.add(n.args[1].value)
+                        else:
+                            dynamic = True
+                if isinstance(n, ast.Attribute) and n.attr == "__dict__":
+                    dynamic = True
+    return names, resolved and not dynamic
+
+
+_OBJECT_ATTRS = set(dir(object)) | {"__dict__", "__class__", "__module__", "__name__", "__qualname__"}
+
+
+def check_self_attributes(run, rid, prog, funcs, what):
+    """one obligation per (method, attribute read from self that nothing defines)"""
+    n = 0
+    cache = {}
+    for f in funcs:
+        if f.cls is None or not f.node.args.args:
+            continue
+        prog.consulted.add(f.relpath)
+        if f.cls not in cache:
+            cache[f.cls] = defined_attributes(prog, f.cls)
+        names, closed = cache[f.cls]
+        selfname = f.node.args.args[0].arg
+        if selfname != "self":
+            continue
+        reads = {}
+        guarded = set()
+        for x in ast.walk(f.node):
+            # hasattr(self, "X") / getattr(self, "X", d) / try: ... except AttributeError guard the read
+            if isinstance(x, ast.Call) and isinstance(x.func, ast.Name) and x.func.id in ("hasattr", "getattr") and \
+                    len(x.args) >= 2 and isinstance(x.args[1], ast.Constant):
+                guarded.add(x.args[1].value)
+            if isinstance(x, ast.Try):
+                for h in x.handlers:
+                    if h.type is None or "AttributeError" in norm(h.type) or norm(h.type) in ("Exception", "BaseException"):
+                        for y in ast.walk(ast.Module(body=x.body, type_ignores=[])):
+                            if isinstance(y, ast.Attribute) and isinstance(y.value, ast.Name) and y.value.id == "self":
+                                guarded.add(y.attr)
+        for x in walk_no_nested(f.node):
+            if isinstance(x, ast.Attribute) and isinstance(x.ctx, ast.Load) and isinstance(x.value, ast.Name) \
+                    and x.value.id == selfname:
+                reads.setdefault(x.attr, x)
+        n += 1
+        missing = sorted(a for a in reads if a not in names and a not in _OBJECT_ATTRS and a not in guarded)
+        ok = not missing or not closed
+        first = reads[missing[0]] if missing else None
+        run.obligation(rid, f.short, ok, key="self-attributes",
+                       message="%s reads self.%s, which no method, class attribute or assignment of %s, its bases or "
+                               "its subclasses defines (%s raises AttributeError on this path)"
+                               % (f.short, ", self.".join(missing), f.cls.name, what),
+                       loc=f.loc(first) if first is not None else f.loc(),
+                       sample={"function": f.short, "attributes_read": len(reads), "class_closed": closed})
     return n
